@@ -12,18 +12,20 @@ import numpy as np
 from pv.ref import c20_ellipse as ref
 
 FIT_CLASSES = ['free', 'geo_step', 'linear', 'fixed', 'area', 'nearest', 'pa_edge', 'eps_edge', 'offcentre',
-               'truth_start', 'fix_noniter', 'controls']
+               'truth_start', 'fix_noniter', 'controls', 'corner']
 # composite classes: the sub-class is drawn per case (keeps the number of classes, each of which every run must
 # reach, small enough for a heavily loaded machine)
 SUBCLASSES = {'free': ['sersic', 'gauss'], 'fixed': ['fix_center', 'fix_pa', 'fix_eps', 'fix_two'],
               'area': ['area_mean', 'area_median']}
 
 
-REPRS_FIT = ['float32', 'float32', 'uint16', 'uint16', 'int16', 'int32', 'fortran', 'strided', 'bigendian',
-             'transposed_view', 'masked_empty']
-REPRS_ALL = ['float32', 'uint16', 'int16', 'int32', 'fortran', 'strided', 'bigendian', 'transposed_view',
-             'masked_empty', 'masked_nomask', 'masked_far']
-INT_PEAK = {'uint16': 6.0e4, 'int16': 3.0e4, 'int32': 2.0e9}
+REPRS_FIT = ['float32', 'float32', 'uint16', 'uint16', 'int16', 'int32', 'uint32', 'int64', 'uint64', 'fortran',
+             'strided', 'bigendian', 'transposed_view', 'masked_empty']
+REPRS_ALL = ['float32', 'float16', 'uint8', 'int8', 'uint16', 'int16', 'int32', 'uint32', 'int64', 'uint64',
+             'fortran', 'strided', 'bigendian', 'transposed_view', 'masked_empty', 'masked_nomask', 'masked_far']
+# peak counts: near the limits of the narrow dtypes, beyond 2**31 / 2**53 for the wide ones
+INT_PEAK = {'uint8': 250.0, 'int8': 125.0, 'uint16': 6.0e4, 'int16': 3.0e4, 'int32': 2.0e9, 'uint32': 4.2e9,
+            'int64': 8.0e18, 'uint64': 1.7e19}
 
 
 def _size(rng, tier):
@@ -39,6 +41,8 @@ def draw_axes(rng, cls, small):
     ax = dict(plain=bool(rng.random() < 0.5), frame=None, magnitude=None, image_repr=None, pa_form=None,
               centre_np=False, sma_int=False, peak_frac=float(rng.uniform(0.35, 1.0)))
     r = rng.random(6)
+    r2 = rng.random(3)
+    ax.update(centre_grid=None, geometry_history=False, model_from_slice=False)
     k = int(rng.integers(-50, 31))
     dec = float(10.0 ** rng.uniform(-15.0, 9.0))
     i_repr = int(rng.integers(0, len(REPRS_FIT)))
@@ -55,6 +59,10 @@ def draw_axes(rng, cls, small):
         ax['pa_form'] = ['negative', 'above_pi', 'numpy_float64'][i_pa]
     ax['centre_np'] = bool(r[4] < 0.3)
     ax['sma_int'] = bool(r[5] < 0.3)
+    # second list: (ix) centre exactly on a pixel centre / pixel edge, even and odd; (x) geometry with a history
+    ax['centre_grid'] = [None, None, None, 'integer', 'half'][int(r2[0] * 5) % 5]
+    ax['geometry_history'] = bool(r2[1] < 0.25)
+    ax['model_from_slice'] = bool(r2[2] < 0.25)
     return ax
 
 
@@ -83,6 +91,23 @@ def draw_truth(rng, cls, tier, small=False):
         else:
             ny, nx, x0, y0 = long_, short, float(across), float(along)
         m = short
+    if cls == 'corner':
+        # (viii) centre well inside the frame but nearer EACH corner in turn; the fit goes out to where the path
+        # leaves the frame through the two near borders only (left/bottom = negative indices, right/top = beyond)
+        ny = nx = int(71 + el[0] * 31)
+        if el[1] < 0.5:
+            ny = int(71 + el[2] * 31)
+        m = min(nx, ny)
+        corner = int(el[3] * 4) % 4
+        fx, fy = 0.27 + 0.08 * el[4], 0.27 + 0.08 * el[2]
+        x0 = float(fx * nx if corner in (0, 2) else (1 - fx) * nx)
+        y0 = float(fy * ny if corner in (0, 1) else (1 - fy) * ny)
+        # corner 0: small x, small y; 1: large x, small y; 2: small x, large y; 3: large x, large y
+        axes['corner'] = ['lower_left', 'lower_right', 'upper_left', 'upper_right'][corner]
+    if axes.get('centre_grid') == 'integer':
+        x0, y0 = float(round(x0)), float(round(y0))
+    elif axes.get('centre_grid') == 'half':
+        x0, y0 = float(math.floor(x0)) + 0.5, float(math.floor(y0)) + 0.5
     eps = float(rng.uniform(0.05, 0.8))
     pa = float(rng.uniform(0.0, math.pi))
     if cls == 'pa_edge':
@@ -165,6 +190,13 @@ def draw(rng, cls, tier):
         maxfrac = float(rng.uniform(0.40, 0.60))
     if cls in ('area_mean', 'area_median'):
         maxfrac = float(rng.uniform(0.25, 0.33))
+    if cls == 'corner':
+        # near borders at ~0.27-0.35 of the side, far ones at ~0.65-0.73: leave the frame on the near sides only
+        maxfrac = float(rng.uniform(0.45, 0.62))
+        cm = ['bilinear', 'nearest_neighbor', 'bilinear', 'nearest_neighbor', 'mean', 'median'][int(rng.integers(0, 6))]
+        kw['integrmode'] = cm
+        if cm in ('mean', 'median'):
+            maxfrac = float(rng.uniform(0.42, 0.5))
     maxsma = float(maxfrac * m)
     r = rng.random()
     if r < 0.45:
@@ -185,6 +217,8 @@ def draw(rng, cls, tier):
             kw['maxrit'] = float(rng.uniform(1.15 * sma0, max(1.3 * sma0, 0.9 * maxsma)))
         else:
             maxsma = float(rng.uniform(0.65, 1.0) * m)     # the centre is at most 0.62 m from the nearest edge
+    if cls == 'corner' and kw.get('integrmode') == 'nearest_neighbor':
+        minsma = float(3.0 + 2.0 * r)       # (stay clear of the known zero-gradient crash at sma < ~3)
     kw['minsma'] = minsma
     kw['maxsma'] = maxsma
     if cls == 'controls':
@@ -279,9 +313,12 @@ def apply_repr(img, kind, spec=None, peak_frac=1.0, far_radius=None):
         sc = peak_frac * INT_PEAK[kind] / float(img.max())
         v = np.rint(img * sc).astype(kind)
         return v, v.astype(np.float64), sc
-    if kind == 'float32':
-        v = img.astype(np.float32)
-        return v, v.astype(np.float64), 1.0
+    if kind in ('float32', 'float16'):
+        sc = 1.0
+        if kind == 'float16':
+            sc = 1000.0 / float(img.max())            # keep the values inside the float16 range
+        v = (img * sc).astype(kind)
+        return v, v.astype(np.float64), sc
     if kind == 'fortran':
         return np.asfortranarray(img), img, 1.0
     if kind == 'transposed_view':
